@@ -10,7 +10,7 @@ var (
 	errBaseLen            = errors.New("insufficient data for base length type")
 	errCalcLen            = errors.New("insufficient data for calculated length type")
 	errReserved           = errors.New("segment prefix is reserved")
-	errTooManyPtr         = errors.New("too many pointers (>10)")
+	errTooManyPtr         = errors.New("too many pointers (>127)")
 	errInvalidPtr         = errors.New("invalid pointer")
 	errInvalidName        = errors.New("invalid dns name")
 	errNilResouceBody     = errors.New("nil resource body")
